@@ -18,6 +18,7 @@ import (
 	"github.com/samber/ro"
 
 	"rosim/simrt"
+	"rosim/simtime"
 )
 
 type c09Key string
@@ -119,6 +120,7 @@ var c09Flows = func() map[string]c09Flow {
 		// local stages (c09Local)
 		"ContextReset":          {N: fN, E: fE, C: fC, Reset: true},
 		"ContextWithTimeout":    c09idn("id"),
+		"ContextWithDeadline":   c09idn("id"),
 		"ToChannel":             {N: fX, E: 0, C: fE | fC},
 		"FilterWithContext":     att(c09idn("id"), fN),
 		"ScanWithContext":       att(c09idn("trig"), fN),
@@ -148,11 +150,11 @@ func c09FlowOf(st StageSpec) c09Flow {
 
 // stages that only exist in this family
 var c09Local = map[string]bool{
-	"ContextReset": true, "ContextWithTimeout": true, "ToChannel": true, "FilterWithContext": true, "ScanWithContext": true,
+	"ContextReset": true, "ContextWithTimeout": true, "ContextWithDeadline": true, "ToChannel": true, "FilterWithContext": true, "ScanWithContext": true,
 	"TakeWhileWithContext": true, "FirstWithContext": true, "LastWithContext": true, "DistinctByWithContext": true, "MapErrWithContext": true,
 }
 
-var c09LocalNames = []string{"ContextReset", "ContextWithTimeout", "ToChannel", "FilterWithContext", "ScanWithContext",
+var c09LocalNames = []string{"ContextReset", "ContextWithTimeout", "ContextWithDeadline", "ToChannel", "FilterWithContext", "ScanWithContext",
 	"TakeWhileWithContext", "FirstWithContext", "LastWithContext", "DistinctByWithContext", "MapErrWithContext"}
 
 var c09CtxStages = []string{"ContextWithValue", "ContextMap", "MapWithContext", "MapIWithContext"}
@@ -364,6 +366,8 @@ func (r *c09Run) build(idx int, st StageSpec) func(ro.Observable[int]) ro.Observ
 		return ro.ContextReset[int](context.WithValue(context.Background(), kC09Reset, "reset"))
 	case "ContextWithTimeout":
 		return ro.ContextWithTimeout[int](1000 * Unit)
+	case "ContextWithDeadline":
+		return ro.ContextWithDeadline[int](simtime.Now().Add(1000 * Unit))
 	case "ToChannel":
 		size := pi(st.P, 0, 1)
 		return func(src ro.Observable[int]) ro.Observable[int] {
